@@ -13,6 +13,7 @@ import (
 	"encoding/hex"
 	"fmt"
 	"os"
+	"runtime"
 	"strconv"
 	"strings"
 	"time"
@@ -290,7 +291,9 @@ function battery(a, b, first) {
    function(){ return a.indexOf(b)===0 && b.indexOf(a)===0 && a.startsWith(b) && b.endsWith(a) && a.includes(b) && a.lastIndexOf(b)===0; },
    function(){ return JSON.stringify(a)===JSON.stringify(b); },
    function(){ return (a+"x")===(b+"x") && ("é"+a)===("é"+b) && a.slice(0)===b.slice(0) && a.concat(b)===b.concat(a); },
-   function(){ var x=[], y=[]; for (var c of a) x.push(c.codePointAt(0)); for (var d of b) y.push(d.codePointAt(0)); return x.join()===y.join() && a.codePointAt(0)===b.codePointAt(0); }
+   function(){ var x=[], y=[]; for (var c of a) x.push(c.codePointAt(0)); for (var d of b) y.push(d.codePointAt(0)); return x.join()===y.join() && a.codePointAt(0)===b.codePointAt(0); },
+   function(){ return "abcdefgh".charAt(a)==="abcdefgh".charAt(b) && [1,2,3,4].at(a)===[1,2,3,4].at(b) && "abcdefgh".slice(a)==="abcdefgh".slice(b); },
+   function(){ return Object.is(+a,+b) && Object.is(parseInt(a),parseInt(b)) && (a|0)===(b|0) && Object.is(parseFloat(a),parseFloat(b)) && Object.is(a*1,b*1); }
   ];
   var r = new Array(obs.length);
   r[first % obs.length] = obs[first % obs.length]() ? "1" : "0";
@@ -300,7 +303,7 @@ function battery(a, b, first) {
 function lt(a,b){ return a<b ? 1 : 0 }
 `
 
-const nJSObs = 14
+const nJSObs = 16
 
 type evalCtx struct {
 	rt   *goja.Runtime
@@ -613,7 +616,12 @@ func goObs(a, b goja.String, first int) string {
 		func() bool { return goja.VerifC06Hash(a) == goja.VerifC06Hash(b) },
 		func() bool { return goja.VerifC06Key(a) == goja.VerifC06Key(b) },
 		func() bool { return a.Length() == b.Length() },
-		func() bool { return a.ToNumber().SameAs(b.ToNumber()) && a.ToInteger() == b.ToInteger() && a.ToBoolean() == b.ToBoolean() },
+		func() bool { return a.ToNumber().SameAs(b.ToNumber()) },
+		func() bool {
+			fa, fb := a.ToFloat(), b.ToFloat()
+			return a.ToInteger() == b.ToInteger() && (fa == fb || (fa != fa && fb != fb))
+		},
+		func() bool { return a.ToBoolean() == b.ToBoolean() },
 		func() bool { return a.Export() == b.Export() && a.String() == b.String() && a.ExportType() == b.ExportType() },
 	}
 	r := make([]string, len(obs))
@@ -695,15 +703,31 @@ func loop(f func(line string) string) {
 		line := in.Text()
 		ch := make(chan string, 1)
 		go func() { ch <- common.Safe(func() string { return f(line) }) }()
-		select {
-		case res := <-ch:
-			out.WriteString(res)
-			out.WriteByte('\n')
-		case <-time.After(limit):
-			out.WriteString("TIMEOUT\n")
-			out.Flush()
-			os.Exit(3)
+		deadline := time.After(limit)
+		tick := time.NewTicker(200 * time.Millisecond)
+	wait:
+		for {
+			select {
+			case res := <-ch:
+				out.WriteString(res)
+				out.WriteByte('\n')
+				break wait
+			case <-tick.C:
+				// a runaway case may also allocate without bound: give up long before the machine suffers
+				var ms runtime.MemStats
+				runtime.ReadMemStats(&ms)
+				if ms.HeapAlloc > 3<<30 {
+					out.WriteString("TIMEOUT heap>3GiB\n")
+					out.Flush()
+					os.Exit(3)
+				}
+			case <-deadline:
+				out.WriteString("TIMEOUT\n")
+				out.Flush()
+				os.Exit(3)
+			}
 		}
+		tick.Stop()
 	}
 }
 
